@@ -1,6 +1,7 @@
 package strings
 
 import (
+	"errors"
 	"strings"
 )
 
@@ -32,8 +33,11 @@ func compare(a, b string) int {
 }
 
 //risor:export
-func repeat(s string, count int) string {
-	return strings.Repeat(s, count)
+func repeat(s string, count int) (string, error) {
+	if count < 0 {
+		return "", errors.New("value error: strings.repeat count must not be negative")
+	}
+	return strings.Repeat(s, count), nil
 }
 
 //risor:export
